@@ -1,12 +1,16 @@
 import Pyunicorn.Model.Proto
 import Pyunicorn.Model.Geo
 import Pyunicorn.Model.GeoHist
+import Pyunicorn.Model.GeoArea
 /-! Line-protocol driver for C12 (grid geometry).
 
 Exact requests (`Rat`): `cosang`, `eucl2`, `gridnn`, `rect`, `convlon`, `maxld`, `ald`,
 `geodist`, `geocum`, `nbawc`, `maxnbawc`, `geomdd`, `linkdd` (round 3).
 Floating requests (`Float`, answers as IEEE-754 bit patterns): `angdist`,
-`eucld`, `geonn`, `weights`, `awc`. -/
+`eucld`, `geonn`, `weights`, `awc`.
+Round 4: `angdist` / `eucld` answer through the object-level models `gridDistance` (a `GeoGrid`
+built from `lat`, `lon`) and `gridEuclideanDistance` (a `Grid` holding an array of shape
+`(d, n)`); exact requests `eucobj2` (object level, squared), `cwd`, `tld`, `georect`. -/
 open Pyunicorn Pyunicorn.Proto Pyunicorn.Geo
 
 def vec {α : Type} [Inhabited α] (l : List α) : Nat → α := fun i => l.getD i default
@@ -27,6 +31,14 @@ def trigF : Trig Float where
   arccos := Float.acos
   sqrt := Float.sqrt
   rad := fun x => x * 3.141592653589793 / 180
+
+/-- a `Trig Rat` whose transcendental fields are never used by the exact requests -/
+def trigQ : Trig Rat where
+  sin := id
+  cos := id
+  arccos := id
+  sqrt := id
+  rad := id
 
 def showOptNat : Option Nat → String
   | some k => toString k
@@ -68,10 +80,35 @@ def answer (toks : List String) : String :=
       if r.isEmpty then "-" else join (r.map showOptInts) ";"
   | ["angdist", n, lat, lon] =>
       let N := n.toNat!
-      showFloatMat (toLists N (angularDistance trigF (vec (floats lat)) (vec (floats lon)) N))
+      showFloatMat (toLists N (gridDistance trigF .geo
+        (geoGridData (vec (floats lat)) (vec (floats lon)) N)))
   | ["eucld", d, n, x] =>
       let N := n.toNat!
-      showFloatMat (toLists N (euclideanDistance trigF (mat (floatMat x)) d.toNat! N))
+      showFloatMat (toLists N (gridDistance trigF .euclid ⟨d.toNat!, N, mat (floatMat x)⟩))
+  -- round 4: `Grid.euclidean_distance()` of the object, exact squared distances
+  | ["eucobj2", d, n, x] =>
+      let N := n.toNat!
+      showRatMat (toLists N (gridEuclideanDistance
+        { trigQ with sqrt := id } ⟨d.toNat!, N, mat (ratMat x)⟩))
+  -- `(in|out|)connectivity_weighted_distance`; mode in|out|dir|undir (exact)
+  | ["cwd", mode, n, d, a, w] =>
+      let N := n.toNat!
+      let f := if mode == "in" then inCWD (α := Rat) else if mode == "out" then outCWD (α := Rat)
+        else CWD (α := Rat) (mode == "dir")
+      showOptRats ((List.range N).map (f (mat (ratMat d)) (mat (ratMat a)) (vec (rats w)) N))
+  -- `(in|out|)total_link_distance(geometry_corrected)` (exact)
+  | ["tld", mode, corr, n, d, a, w] =>
+      let N := n.toNat!
+      let f := if mode == "in" then inTLD (α := Rat) else if mode == "out" then outTLD (α := Rat)
+        else TLD (α := Rat) (mode == "dir")
+      showOptRats ((List.range N).map
+        (f (mat (ratMat d)) (mat (ratMat a)) (vec (rats w)) N (N : Rat) (corr == "1")))
+  -- `GeoGrid.coord_sequence_from_rect_grid(lat_grid, lon_grid)`
+  | ["georect", la, lo] =>
+      match geoRectGrid (ints la) (ints lo) with
+      | some (a, b) => showOptInts a ++ ";" ++ showOptInts b
+      | none => "raise"
+
   | ["geonn", n, lat, lon, latq, lonq] =>
       match floats latq, floats lonq with
       | [a], [b] => showOptNat (geoGridNodeNumber trigF (vec (floats lat)) (vec (floats lon)) a b
